@@ -7,6 +7,7 @@
    quantify over EVERY legal choice sequence `trace`). *)
 From Coq Require Import ZArith List Bool Arith Permutation.
 From CTM Require Import Base.Sx Base.SortX Model.Tree Model.Selection Proofs.SelectionP.
+From CTM Require Import Proofs.SelectionPickP Proofs.SelectionDownP Proofs.SelectionNamesP.   (* block "audit repair" below *)
 From CTM Require Import Model.SelectionK Proofs.SelectionKP Proofs.SelectionKSafeP.   (* every genes_at_a_time: section at the end *)
 Import ListNotations.
 Open Scope nat_scope.
@@ -86,7 +87,15 @@ Theorem c12_only_useful_genes : forall n_genes pairs marks n trace st,
 Proof. exact only_useful_genes. Qed.
 Print Assumptions c12_only_useful_genes.
 
-(* a parent with no pair to discriminate gets no marker (and the loop makes no choice) *)
+(* a parent with no pair to discriminate gets no marker (and the loop makes no choice).
+   HONEST LABEL: this is about the MODEL of _run_selection on an empty taxonomy_idx_array; the real
+   _run_selection raises there (ValueError: zero-size array to reduction operation minimum, in
+   _stats_from_marker_counts; part (D) of harness/props/c12_downsample.py makes that call on every run
+   and publishes the outcome as run_selection_on_no_pairs).  The [] of
+   the pipeline comes from the short-circuit `if len(leaves) == 0` of select_all_markers /
+   _marker_selection_worker, which is modelled by select_parent: c12_parent_short_circuit and
+   c12_parent_run_has_pairs (the loop is only ever entered with pairs <> []) in the block at the end
+   of this part.  Every other run theorem of this file is used by the pipeline only with pairs <> []. *)
 Theorem c12_nothing_to_discriminate : forall n_genes marks n trace st,
   run n_genes [] marks n (start n_genes [] marks n) trace = Some st -> chosen st = [] /\ trace = [].
 Proof. exact nothing_to_discriminate. Qed.
@@ -125,20 +134,36 @@ Print Assumptions c12_spec_holds.
 
 (* the order in which the pairs are indexed is irrelevant: a legal run under one order is a
    legal run WITH THE SAME CHOICE SEQUENCE under any permutation of the pairs; the selected
-   SET, the per-slot counts and the filled flags coincide (only the order in which the
-   desperate phase emits its genes may differ) *)
+   SET, the per-slot counts, the aggregate, the filled flags AND THE UTILITY ARRAY coincide - at the
+   end and AT EVERY PREFIX of the run (steps = the first k iterations of `while True`); the two
+   marker_gene_name_lists are the two desperate prefixes (permutations of each other: only the order
+   in which the desperate phase emits its genes differs) followed by the same k choices.
+   Consequence (c12_pick_function_order_irrelevant below): whatever deterministic rule breaks the
+   ties by looking at the utility arrays seen so far and at WHICH genes were taken, it sees the same
+   data under both orders and makes the same choices. *)
 Theorem c12_pair_order_irrelevant : forall n_genes marks n pairs pairs',
   Permutation pairs pairs' -> forall trace st,
   run n_genes pairs marks n (start n_genes pairs marks n) trace = Some st ->
-  exists st', run n_genes pairs' marks n (start n_genes pairs' marks n) trace = Some st' /\
-              Permutation (chosen st) (chosen st') /\
-              (forall s, counts st s = counts st' s) /\ (forall s, filled st s = filled st' s).
-Proof. exact pair_order_irrelevant. Qed.
+  (exists st', run n_genes pairs' marks n (start n_genes pairs' marks n) trace = Some st' /\
+               Permutation (chosen st) (chosen st') /\
+               (forall s, counts st s = counts st' s) /\ (forall s, filled st s = filled st' s) /\
+               (forall p, aggr st p = aggr st' p) /\ (forall g, utility st g = utility st' g)) /\
+  forall k, exists sk sk',
+    steps n_genes pairs marks n (start n_genes pairs marks n) (firstn k trace) = Some sk /\
+    steps n_genes pairs' marks n (start n_genes pairs' marks n) (firstn k trace) = Some sk' /\
+    chosen sk = chosen (start n_genes pairs marks n) ++ firstn k trace /\
+    chosen sk' = chosen (start n_genes pairs' marks n) ++ firstn k trace /\
+    Permutation (chosen (start n_genes pairs marks n)) (chosen (start n_genes pairs' marks n)) /\
+    (forall s, counts sk s = counts sk' s) /\ (forall s, filled sk s = filled sk' s) /\
+    (forall p, aggr sk p = aggr sk' p) /\ (forall g, utility sk g = utility sk' g).
+Proof. exact pair_order_irrelevant_prefix. Qed.
 Print Assumptions c12_pair_order_irrelevant.
 
-(* with a tie-breaking rule that looks only at the utility array and the taken genes (the
-   model's deterministic instance; np.argsort of the utility array is another such rule) the
-   selected set itself is the same under both orders *)
+(* HONEST LABEL (audit defect 3): `greedy` breaks ties by taking the FIRST gene of maximal utility.
+   That is NOT what the code does (it pops the tail of a possibly stale np.argsort: Example
+   ex_python_is_not_first_max below), so this theorem says nothing about the code's own choices.
+   It is kept as the instance pick = pick_first_max (c12_greedy_is_pick_instance) of
+   c12_pick_function_order_irrelevant, which covers the code's rule (pick_pop, for ANY argsort). *)
 Theorem c12_greedy_order_irrelevant : forall n_genes marks n pairs pairs',
   Permutation pairs pairs' -> forall fuel st,
   greedy n_genes pairs marks n fuel (start n_genes pairs marks n) = Some st ->
@@ -147,9 +172,9 @@ Theorem c12_greedy_order_irrelevant : forall n_genes marks n pairs pairs',
 Proof. exact greedy_order_irrelevant. Qed.
 Print Assumptions c12_greedy_order_irrelevant.
 
-(* ... and the two index arrays the pipeline can produce for one parent (sorted global indices
-   on the full table = "behemoth"; positions in leaves_to_compare order after
-   downsample_pairs_to_other) are such permutations *)
+(* HONEST LABEL: by construction of the model (parent_idx ... true is nat_sort of parent_idx ... false,
+   and a sorted list is a permutation of the list).  It says nothing about the downsampled TABLE of a
+   non-behemoth parent; that is c12_downsample_preserves_marks / c12_threshold_irrelevant below. *)
 Theorem c12_behemoth_order_is_permutation : forall rm t parent i1 i2,
   parent_idx rm t parent true = Some i1 -> parent_idx rm t parent false = Some i2 -> Permutation i1 i2.
 Proof. exact parent_idx_perm. Qed.
@@ -161,7 +186,10 @@ Print Assumptions c12_behemoth_order_is_permutation.
    listed for a pair and a direction iff that reference gene is listed there in the file; the pairs
    and their positions are untouched *)
 Theorem c12_thinning_sound : forall rm query,
+  NoDup (rm_genes rm) ->      (* gene names of the file are distinct: outside this the model is not tied
+                                 (match_genes goes through a set and a name -> index dict) *)
   let keep := keep_idx rm query in
+  NoDup (rm_genes (thin_genes rm query)) /\
   rm_genes (thin_genes rm query) = map (fun i => nth i (rm_genes rm) 0%Z) keep /\
   (forall i, In i keep <-> i < length (rm_genes rm) /\ In (nth i (rm_genes rm) 0%Z) query) /\
   length (rm_pairs (thin_genes rm query)) = length (rm_pairs rm) /\
@@ -169,7 +197,7 @@ Theorem c12_thinning_sound : forall rm query,
     exists e', nth_error (rm_pairs (thin_genes rm query)) k = Some e' /\ fst e' = fst e /\
       (forall j, In j (fst (snd e')) <-> exists i, nth_error keep j = Some i /\ In i (fst (snd e))) /\
       (forall j, In j (snd (snd e')) <-> exists i, nth_error keep j = Some i /\ In i (snd (snd e))).
-Proof. exact thinning_sound. Qed.
+Proof. exact thinning_sound_nodup. Qed.
 Print Assumptions c12_thinning_sound.
 
 (* ---------------- non-vacuity: 4 genes, 2 pairs (the table of DESIGN B.3) ---------------- *)
@@ -217,6 +245,277 @@ Example ex_thin :
   let rm := {| rm_genes := [10; 11; 12; 13; 14]%Z; rm_pairs := [((0, 1)%Z, ([1; 2], [3; 4]))] |} in
   (keep_idx rm [13; 11; 99]%Z, rm_pairs (thin_genes rm [13; 11; 99]%Z)) = ([1; 3], [((0, 1)%Z, ([0], [1]))]).
 Proof. vm_compute. reflexivity. Qed.
+
+(* ====================================================================================================
+   BLOCK "audit repair" (report2.md defects 3, 9, 10).  Model: the additions at the end of
+   Model/Selection.v (steps, run_with / select_with, pick_first_max / pick_of_trace / pick_pop,
+   downsample_pairs, n_per_for, select_parent).  Proofs: SelectionPickP, SelectionDownP, SelectionNamesP.
+   Tie: harness/props/c12_downsample.py (tags 1260-1263).
+   ==================================================================================================== *)
+
+(* ---------------- defect 3 (i): the tie-break the code really uses ----------------
+   select_with pick = _run_selection with the gene of every iteration named by the rule `pick`.  A rule
+   sees, for every call of _update_been_filled so far, (was sorted_utility_idx recomputed, the utility
+   array after the call, marker_gene_name_list at the call) and marker_gene_name_list now; every
+   choice is checked by `step`, so a completed select_with is a legal run and every theorem above
+   applies to it: *)
+Theorem c12_select_with_is_legal_run : forall n_genes pairs marks n pick st,
+  select_with n_genes pairs marks n pick = WDone st ->
+  exists trace, run n_genes pairs marks n (start n_genes pairs marks n) trace = Some st /\
+                chosen st = chosen (start n_genes pairs marks n) ++ trace.
+Proof. exact select_with_is_run. Qed.
+Print Assumptions c12_select_with_is_legal_run.
+
+(* For EVERY rule that does not look at the ORDER of the chosen lists (pick_respects, SelectionPickP.v:
+   equal flags and utility arrays + chosen lists that are permutations of each other give the same
+   answer), the two pair orders give the same outcome; on `break`: the SAME choice sequence in the loop,
+   the same selected set, counts, flags and utility array.  numpy's rule is such a rule for ANY
+   argsort (c12_rules_respect: pick_pop sorter, sorter an arbitrary function of the array - stale list
+   or not); so are the model's first_max and a recorded trace.  The hypothesis cannot be dropped
+   (ex_order_peeking_rule): the desperate phase emits its genes in the order of the pairs. *)
+Theorem c12_pick_function_order_irrelevant : forall n_genes marks n pairs pairs' pick,
+  Permutation pairs pairs' -> pick_respects pick ->
+  match select_with n_genes pairs marks n pick, select_with n_genes pairs' marks n pick with
+  | WDone st, WDone st' =>
+      (exists trace, chosen st = chosen (start n_genes pairs marks n) ++ trace /\
+                     chosen st' = chosen (start n_genes pairs' marks n) ++ trace /\
+                     run n_genes pairs marks n (start n_genes pairs marks n) trace = Some st /\
+                     run n_genes pairs' marks n (start n_genes pairs' marks n) trace = Some st') /\
+      Permutation (chosen st) (chosen st') /\
+      (forall s, counts st s = counts st' s) /\ (forall s, filled st s = filled st' s) /\
+      (forall g, utility st g = utility st' g)
+  | WIllegal g, WIllegal g' => g = g'
+  | WStuck, WStuck => True
+  | WOutOfFuel, WOutOfFuel => True
+  | _, _ => False
+  end.
+Proof. exact pick_function_order_irrelevant. Qed.
+Print Assumptions c12_pick_function_order_irrelevant.
+
+Theorem c12_rules_respect :
+  pick_respects pick_first_max /\ (forall sorter, pick_respects (pick_pop sorter)) /\
+  (forall nd trace, pick_respects (pick_of_trace nd trace)).
+Proof. exact rules_respect. Qed.
+Print Assumptions c12_rules_respect.
+
+(* `greedy` is the instance pick = pick_first_max ... *)
+Theorem c12_greedy_is_pick_instance : forall n_genes pairs marks n,
+  wres_opt (select_with n_genes pairs marks n pick_first_max) =
+  greedy n_genes pairs marks n (S n_genes) (start n_genes pairs marks n).
+Proof. exact greedy_is_select_with. Qed.
+Print Assumptions c12_greedy_is_pick_instance.
+
+(* ... and every legal recorded choice sequence (what the harness replays: the lists returned by the
+   real _run_selection) is the instance pick = "read the next gene off the record" *)
+Theorem c12_recorded_trace_is_pick_instance : forall n_genes pairs marks n trace st,
+  run n_genes pairs marks n (start n_genes pairs marks n) trace = Some st ->
+  select_with n_genes pairs marks n (pick_of_trace (length (chosen (start n_genes pairs marks n))) trace) = WDone st.
+Proof. exact trace_is_select_with. Qed.
+Print Assumptions c12_recorded_trace_is_pick_instance.
+
+(* ---------------- defect 3 (ii): the downsampled table of a non-behemoth parent ----------------
+   downsample_pairs rm keep = MarkerGeneArray.downsample_pairs_to_other(only_keep_pairs=keep) on the
+   thinned array: same genes; the kept keys, in the given order, are found again at the local numbers
+   0..m-1 (so _get_taxonomy_idx returns 0..m-1); and local pair k carries EXACTLY the marks of the
+   global pair idx[k] of the full array, for every gene and both directions.  NoDup keep:
+   leaves_to_compare(parent) has no repetition (c10_leaf_pairs_exact). *)
+Theorem c12_downsample_preserves_marks : forall rm keep arr,
+  NoDup keep -> downsample_pairs rm keep = Some arr ->
+  rm_genes arr = rm_genes rm /\
+  map fst (rm_pairs arr) = keep /\
+  exists idx,
+    opt_all (map (fun pr => idx_of_pair pr (rm_pairs rm) 0) keep) = Some idx /\
+    opt_all (map (fun pr => idx_of_pair pr (rm_pairs arr) 0) keep) = Some (seq 0 (length keep)) /\
+    length idx = length keep /\
+    Forall (fun i => i < length (rm_pairs rm)) idx /\
+    forall k i, nth_error idx k = Some i ->
+      forall g d, marks_of (pair_tables arr) g (k, d) = marks_of (pair_tables rm) g (i, d).
+Proof. exact downsample_preserves_marks. Qed.
+Print Assumptions c12_downsample_preserves_marks.
+
+(* the whole of _run_selection commutes with such a renumbering, and with the sort: for two index
+   arrays and two tables related as above, every rule gives the same selection (sel_same d d' r r',
+   SelectionDownP.v: same outcome; on `break` chosen = d ++ t and d' ++ t with the SAME t, d and d'
+   permutations of each other, the same selected set and the same utility array) *)
+Theorem c12_threshold_core : forall n_genes n pick marksB marksD idx idxB idxD,
+  pick_respects pick ->
+  (forall g k d, k < length idx -> marksD g (k, d) = marksB g (nth k idx 0, d)) ->
+  Permutation idxB idx -> Permutation idxD (seq 0 (length idx)) ->
+  sel_same (chosen (start n_genes idxB marksB n)) (chosen (start n_genes idxD marksD n))
+           (select_with n_genes idxB marksB n pick) (select_with n_genes idxD marksD n pick).
+Proof. exact threshold_core. Qed.
+Print Assumptions c12_threshold_core.
+
+(* hence: one parent, treated as a behemoth (spawn_copy: full table, sorted global pair numbers) or not
+   (downsample_pairs_to_other: its own pairs, local numbers) - select_parent ... true / false - gets the
+   same selection for every rule; also the same short-circuit and the same errors
+   (parent_res_same, SelectionDownP.v, names the two arrays and index arrays and applies sel_same) *)
+Theorem c12_threshold_irrelevant : forall pick rm query t parent n,
+  pick_respects pick -> NoDup (leaf_pairs t parent) ->
+  parent_res_same (thin_genes rm query) t parent n
+    (select_parent pick rm query t parent true n) (select_parent pick rm query t parent false n).
+Proof. exact threshold_irrelevant. Qed.
+Print Assumptions c12_threshold_irrelevant.
+
+(* ---------------- defect 10: totalisations ---------------- *)
+(* marks_of answers `false` for a pair number beyond the table where Python would raise IndexError:
+   never exercised - every pair number _get_taxonomy_idx produces is in range *)
+Theorem c12_parent_idx_in_range : forall rm t parent b idx,
+  parent_idx rm t parent b = Some idx -> Forall (fun i => i < length (rm_pairs rm)) idx.
+Proof. exact parent_idx_in_range. Qed.
+Print Assumptions c12_parent_idx_in_range.
+
+(* pairs = []: the pipeline never calls _run_selection (by construction of select_parent, which copies
+   `if len(leaves) == 0: output_dict[parent] = []`; the content is in the tie, tag 1261) ... *)
+Theorem c12_parent_short_circuit : forall pick rm query t parent bh n,
+  keep_idx rm query <> [] -> leaf_pairs t parent = [] ->
+  select_parent pick rm query t parent bh n = PSkip.
+Proof. exact parent_short_circuit. Qed.
+Print Assumptions c12_parent_short_circuit.
+
+(* ... and whenever it does call it, taxonomy_idx_array is non-empty and in range, on an array with the
+   genes of the thinned file *)
+Theorem c12_parent_run_has_pairs : forall pick rm query t parent bh n ng r,
+  select_parent pick rm query t parent bh n = PRun ng r ->
+  exists arr idx, idx <> [] /\ Forall (fun i => i < length (rm_pairs arr)) idx /\
+    parent_idx arr t parent true = Some idx /\ ng = length (rm_genes arr) /\
+    rm_genes arr = rm_genes (thin_genes rm query) /\
+    r = select_with ng idx (marks_of (pair_tables arr)) n pick.
+Proof. exact parent_run_has_pairs. Qed.
+Print Assumptions c12_parent_run_has_pairs.
+
+(* an empty query/reference overlap: RuntimeError("No gene overlap between reference and query set"),
+   for every parent - the theorems above about `run 0 ...` are never used by the pipeline *)
+Theorem c12_empty_overlap_refused : forall pick rm query t parent bh n,
+  (forall g, In g (rm_genes rm) -> ~ In g query) ->
+  select_parent pick rm query t parent bh n = PErrOverlap.
+Proof. exact empty_overlap_refused. Qed.
+Print Assumptions c12_empty_overlap_refused.
+
+Theorem c12_overlap_needed : forall pick rm query t parent bh n,
+  select_parent pick rm query t parent bh n <> PErrOverlap ->
+  exists g, In g (rm_genes rm) /\ In g query.
+Proof. exact overlap_needed. Qed.
+Print Assumptions c12_overlap_needed.
+
+(* ---------------- defect 9: C12 about gene NAMES ----------------
+   Every gene returned for a parent, by NAME: it is the name of exactly one gene of the reference file,
+   that name occurs in the query, and that reference gene is listed in the file as a down- or up-marker
+   of a pair (keyed by its two leaf names) that the parent must discriminate.  Composition of
+   c12_only_useful_genes with c12_thinning_sound and parent_idx. *)
+Theorem c12_selected_names_are_query_markers : forall rm query t parent bh idx n trace st,
+  NoDup (rm_genes rm) ->
+  let rm' := thin_genes rm query in
+  parent_idx rm' t parent bh = Some idx ->
+  run (length (rm_genes rm')) idx (marks_of (pair_tables rm')) n
+      (start (length (rm_genes rm')) idx (marks_of (pair_tables rm')) n) trace = Some st ->
+  forall j, In j (chosen st) ->
+    exists name i,
+      nth_error (rm_genes rm') j = Some name /\
+      In name query /\
+      nth_error (rm_genes rm) i = Some name /\ (forall i', nth_error (rm_genes rm) i' = Some name -> i' = i) /\
+      exists pr dn up (d : bool), In pr (leaf_pairs t parent) /\ In (pr, (dn, up)) (rm_pairs rm) /\
+                                  In i (if d then up else dn).
+Proof. exact selected_names_are_query_markers. Qed.
+Print Assumptions c12_selected_names_are_query_markers.
+
+(* ---------------- n_per_utility_override ----------------
+   this_n_per = n_per_utility_override[chosen_parent] if the parent is a key, else n_per_utility
+   (n_per_for).  By construction of the model; the content is in the tie (tag 1261: select_parent with
+   n_per_for against select_all_markers with random override tables).  select_parent takes this_n_per
+   as its only dependence on the table, so an entry can affect no parent but its own: *)
+Theorem c12_override_applies_to_its_parent_only : forall default ov p v,
+  n_per_for default ((p, v) :: ov) p = v /\
+  forall q, q <> p -> n_per_for default ((p, v) :: ov) q = n_per_for default ov q.
+Proof. exact override_applies_to_its_parent_only. Qed.
+Print Assumptions c12_override_applies_to_its_parent_only.
+
+Theorem c12_override_absent_is_default : forall default ov p,
+  (forall v, ~ In (p, v) ov) -> n_per_for default ov p = default.
+Proof. exact override_absent_is_default. Qed.
+Print Assumptions c12_override_absent_is_default.
+
+(* ---------------- non-vacuity of the block ---------------- *)
+(* the audit's table (4 pairs, 8 genes, n = 2).  The real _run_selection returns g4 g1 g0 g6 g2 g3; the
+   np.argsort results of the four utility arrays on which it re-sorted are given as a table.  pick_pop
+   reproduces the real list; first_max gives ANOTHER SET; both are legal runs *)
+Definition ex_audit_pd : list (list nat * list nat) := [([0], [1; 2; 3]); ([], []); ([4], []); ([1; 5; 6], [0; 4; 7])].
+Definition ex_argsort : list (list Z * list nat) :=
+  [([2; 2; 1; 1; 2; 1; 1; 1]%Z, [3; 2; 6; 5; 7; 1; 0; 4]);
+   ([2; 2; 1; 1; -2; 1; 1; 1]%Z, [4; 3; 5; 2; 6; 7; 0; 1]);
+   ([-3; -1; 1; 1; -3; 1; 1; 0]%Z, [0; 4; 1; 7; 3; 2; 5; 6]);
+   ([-3; -2; 1; 1; -3; 0; -2; 0]%Z, [0; 4; 6; 1; 5; 7; 3; 2])].
+Example ex_python_is_not_first_max :
+  wres_chosen (select_with 8 [0; 1; 2; 3] (marks_of ex_audit_pd) 2 (pick_pop (table_sorter ex_argsort))) = Some [4; 1; 0; 6; 2; 3] /\
+  wres_chosen (select_with 8 [0; 1; 2; 3] (marks_of ex_audit_pd) 2 pick_first_max) = Some [4; 0; 1; 2; 3; 5] /\
+  wres_chosen (select_with 8 [3; 1; 0; 2] (marks_of ex_audit_pd) 2 (pick_pop (table_sorter ex_argsort))) = Some [4; 1; 0; 6; 2; 3].
+Proof. vm_compute. repeat split; reflexivity. Qed.
+(* a rule that looks at the ORDER of marker_gene_name_list tells the pair orders apart: pairs 0 and 1 are
+   desperate (one marker each, n = 1), the desperate prefix is [0;1] or [1;0], genes 2..5 tie *)
+Definition ex_peek : pick_fn := fun _ ch =>
+  match ch with [0; 1] => Some 3 | [1; 0] => Some 2 | [0; 1; 3] => Some 4 | [1; 0; 2] => Some 4 | _ => None end.
+Example ex_order_peeking_rule :
+  let pd := [([0], []); ([1], []); ([2; 3], [4; 5])] in
+  wres_chosen (select_with 6 [0; 1; 2] (marks_of pd) 1 ex_peek) = Some [0; 1; 3; 4] /\
+  wres_chosen (select_with 6 [1; 0; 2] (marks_of pd) 1 ex_peek) = Some [1; 0; 2; 4].
+Proof. vm_compute. split; reflexivity. Qed.
+
+(* a reference file with 6 genes and the 3 pairs of 3 leaves; tree: classes 10 = {0, 1}, 11 = {2};
+   query = 5 of the 6 genes (shuffled) + a foreign one *)
+Definition ex_tree : tree := [[(10, [0; 1]); (11, [2])]; [(0, [100]); (1, [101]); (2, [102])]]%Z.
+Definition ex_rm : refmarkers :=
+  {| rm_genes := [20; 21; 22; 23; 24; 25]%Z;
+     rm_pairs := [((0, 1)%Z, ([0; 5], [1])); ((0, 2)%Z, ([1; 2], [3; 5])); ((1, 2)%Z, ([4], [0]))] |}.
+Definition ex_query : list Z := [25; 21; 22; 23; 20; 99]%Z.
+(* parent_idx: the root must discriminate (0,2) and (1,2) = global pairs 1 and 2; class 10 the pair (0,1)
+   = global pair 0; class 11 (one child) and a leaf nothing *)
+Example ex_parent_idx :
+  leaf_pairs ex_tree None = [(0, 2); (1, 2)]%Z /\
+  parent_idx ex_rm ex_tree None true = Some [1; 2] /\
+  parent_idx ex_rm ex_tree (Some (0, 10%Z)) true = Some [0] /\
+  parent_idx ex_rm ex_tree (Some (0, 11%Z)) true = Some [] /\        (* a file that lacks the pair (1,2): RuntimeError *)
+  parent_idx {| rm_genes := rm_genes ex_rm; rm_pairs := firstn 2 (rm_pairs ex_rm) |} ex_tree None true = None.
+Proof. vm_compute. repeat split; reflexivity. Qed.
+(* the downsampled array of the root: gene 24 is not in the query (thinning renumbers 25 to 4), the two
+   pairs of the root sit at local numbers 0 and 1 *)
+Example ex_downsample :
+  downsample_pairs (thin_genes ex_rm ex_query) (leaf_pairs ex_tree None) =
+    Some {| rm_genes := [20; 21; 22; 23; 25]%Z;
+            rm_pairs := [((0, 2)%Z, ([1; 2], [3; 4])); ((1, 2)%Z, ([], [0]))] |} /\
+  NoDup (leaf_pairs ex_tree None) /\ NoDup (rm_genes ex_rm).
+Proof.
+  split; [vm_compute; reflexivity|]. split.
+  - vm_compute. repeat constructor; cbn; intuition discriminate.
+  - vm_compute. repeat constructor; cbn; intuition discriminate.
+Qed.
+(* behemoth or not: the same three genes (thinned indices 0, 1, 3 = names 20, 21, 23); the short-circuit
+   for class 11; the refusal of a query without any reference gene *)
+Example ex_select_parent :
+  select_parent pick_first_max ex_rm ex_query ex_tree (Some (0, 11%Z)) true 1 = PSkip /\
+  select_parent pick_first_max ex_rm [77%Z] ex_tree None false 1 = PErrOverlap /\
+  (match select_parent pick_first_max ex_rm ex_query ex_tree None true 1 with
+   | PRun ng r => Some (ng, wres_chosen r) | _ => None end) = Some (5, Some [0; 1; 3]) /\
+  (match select_parent pick_first_max ex_rm ex_query ex_tree None false 1 with
+   | PRun ng r => Some (ng, wres_chosen r) | _ => None end) = Some (5, Some [0; 1; 3]).
+Proof. vm_compute. repeat split; reflexivity. Qed.
+(* a desperate pair carried through to coverage: pair 0 has ONE marker (gene 0) and n = 2, so it is
+   desperate: gene 0 is taken before the loop, pair 0 ends with 1 = min(2n, 1) selected markers, pair 1
+   (3 down, 3 up) with 4 = min(2n, 6) *)
+Example ex_desperate_coverage :
+  let pd := [([0], []); ([1; 2; 3], [4; 5; 6])] in
+  let m := marks_of pd in
+  chosen (start 7 [0; 1] m 2) = [0] /\
+  option_map (fun st => (chosen st, covered m (chosen st) 0, covered m (genes 7) 0,
+                                    covered m (chosen st) 1, covered m (genes 7) 1))
+             (run 7 [0; 1] m 2 (start 7 [0; 1] m 2) [1; 2; 4; 5]) = Some ([0; 1; 2; 4; 5], 1, 1, 4, 6) /\
+  both_ways_free pd = true.
+Proof. vm_compute. repeat split; reflexivity. Qed.
+(* the override table: class 10 gets 3, the root and class 11 the default 1 *)
+Example ex_override :
+  let ov := [(Some (0, 10%Z), 3)] in
+  (n_per_for 1 ov (Some (0, 10%Z)), n_per_for 1 ov None, n_per_for 1 ov (Some (0, 11%Z))) = (3, 1, 1).
+Proof. reflexivity. Qed.
+(* end of BLOCK "audit repair" *)
 
 (* ====================================================================================================
    EVERY genes_at_a_time = k >= 1 (Model/SelectionK.v; the theorems above are the case k = 1).
